@@ -160,7 +160,7 @@ func runC15(c *mon.Ctx) {
 			}
 		}
 	}
-	n := c.Scale(48, 1600) / len(versions)
+	n := c.Scale(48, 12000) / len(versions)
 	if n < 1 {
 		n = 1
 	}
